@@ -128,6 +128,11 @@ func Compile(options Options) (result *Result, err error) {
 	options.Log("Kompiliere den Abstrakten Syntaxbaum zu LLVM ir")
 
 	if !options.LinkInModules {
+		// the ast must be valid
+		if ddp_main_module.Ast.Faulty {
+			return nil, fmt.Errorf("Fehlerhafter Quellcode im Modul '%s', Kompilierung abgebrochen", ddp_main_module.GetIncludeFilename())
+		}
+
 		options.Log("Erstelle llvm Context")
 		llctx, err := newllvmContext()
 		if err != nil {
